@@ -735,11 +735,46 @@ def infinite_step(rng, doc):
     return True
 
 
-def mutate(rng, doc, n=1, only=None):
+NOT_JSON_OPS = {"set_for_array"}      # their result is no JSON document: only for harnesses that say so (not_json=True)
+
+
+@op("array-is-an-array", "break")
+def set_for_array(rng, doc):
+    """a list of strings / numbers written as a set (YAML: !!set {a, b}) — a Python object no JSON document holds"""
+    spots = []
+
+    def walk(x):
+        if isinstance(x, dict):
+            for k, v in x.items():
+                if isinstance(v, list) and v and all(isinstance(y, (str, int, float)) and not isinstance(y, bool) for y in v):
+                    spots.append((x, k))
+                walk(v)
+        elif isinstance(x, list):
+            for v in x:
+                walk(v)
+    walk(doc)
+    if not spots:
+        return False
+    holder, key = rng.choice(spots)
+    holder[key] = rng.choice([set, frozenset])(holder[key])
+    return True
+
+
+def has_set(x):
+    if isinstance(x, (set, frozenset)):
+        return True
+    if isinstance(x, dict):
+        return any(has_set(v) for v in x.values())
+    if isinstance(x, list):
+        return any(has_set(v) for v in x)
+    return False
+
+
+def mutate(rng, doc, n=1, only=None, not_json=False):
     """apply n random operators; -> list of (opname, rule, kind) actually applied"""
     applied = []
     tries = 0
-    ops = [o for o in OPS if only is None or o[0] in only]
+    ops = [o for o in OPS if (only is None or o[0] in only) and (not_json or o[0] not in NOT_JSON_OPS)]
     while len(applied) < n and tries < 30:
         tries += 1
         name, rule, kind, f = rng.choice(ops)
